@@ -36,6 +36,7 @@ class RefDC:
         rpc_knobs: t.Optional[dict] = None,
         byz: t.Optional[dict] = None,
         epm: t.Optional[dict] = None,
+        lib_codecs: bool = False,
     ):
         self.world = world
         self.root_keys = {rk.root_key_id: rk for rk in root_keys}
@@ -51,8 +52,14 @@ class RefDC:
         self.getkey_log: t.List[dict] = []
         self.epm_log: t.List[dict] = []
         self.violations: t.List[str] = []
-        self.epm_server = peers.RpcServer({rpce.EPM_IF: self._ept_map}, None, dict(rpc_knobs or {}, sec_addr="135"), "epm")
-        self.gkdi_server = peers.RpcServer({rpce.ISD_KEY_IF: self._get_key}, acceptor_factory, rpc_knobs, "gkdi")
+        # lib_codecs=True turns this node into "LibDC": the same abstract server, but every byte it reads or writes goes
+        # through dpapi_ng's own server-direction pack/unpack code.
+        self.lib = lib_codecs
+        codec = None
+        if lib_codecs:
+            from simworld import libcodec as codec
+        self.epm_server = peers.RpcServer({rpce.EPM_IF: self._ept_map}, None, dict(rpc_knobs or {}, sec_addr="135"), "epm", codec=codec)
+        self.gkdi_server = peers.RpcServer({rpce.ISD_KEY_IF: self._get_key}, acceptor_factory, rpc_knobs, "gkdi", codec=codec)
         world.add_route(host, 135, self.epm_server)
         world.add_route(host, gkdi_port, self.gkdi_server)
 
@@ -75,7 +82,7 @@ class RefDC:
             entry["error"] = "opnum"
             return ("fault", peers.NCA_S_OP_RNG_ERROR)
         try:
-            r = rpce.ndr64_parse_ept_map_request(req["stub"])
+            r = self._lib_parse_ept_map(req["stub"]) if self.lib else rpce.ndr64_parse_ept_map_request(req["stub"])
         except Exception as e:  # noqa: BLE001
             entry["error"] = f"undecodable ept_map: {e!r}"
             self.violations.append(entry["error"])
@@ -98,8 +105,11 @@ class RefDC:
         if towers is None:
             towers = [rpce.std_tower(rpce.ISD_KEY_IF, rpce.NDR20, self.gkdi_port, 0)]
         status = k.get("status", 0)
-        return ("response", rpce.ndr64_ept_map_response(towers[: max(r["max_towers"], 0)] if not k.get("ignore_max") else towers, status,
-                                                         max_count=r["max_towers"]))
+        sel = towers[: max(r["max_towers"], 0)] if not k.get("ignore_max") else towers
+        entry["towers"] = sel
+        if self.lib:
+            return ("response", self._lib_ept_map_response(sel, status))
+        return ("response", rpce.ndr64_ept_map_response(sel, status, max_count=r["max_towers"]))
 
     # ---- GetKey -------------------------------------------------------------
     def _get_key(self, server, conn, req):
@@ -111,7 +121,7 @@ class RefDC:
             return ("fault", peers.NCA_S_OP_RNG_ERROR)
         stub = req["stub"]
         try:
-            r = rpce.ndr64_parse_getkey_request(stub)
+            r = self._lib_parse_getkey(stub) if self.lib else rpce.ndr64_parse_getkey_request(stub)
         except Exception as e:  # noqa: BLE001
             entry["error"] = f"undecodable GetKey: {e!r}"
             self.violations.append(entry["error"])
@@ -123,7 +133,7 @@ class RefDC:
         entry["pad_after_args"] = stub[r["consumed"] : rest_off]
         if rest:
             try:
-                entry["vt"] = rpce.parse_vt(rest)
+                entry["vt"] = self._lib_parse_vt(rest) if self.lib else rpce.parse_vt(rest)
                 entry["vt_raw"] = rest
             except Exception as e:  # noqa: BLE001
                 entry["vt_error"] = repr(e)
@@ -140,8 +150,56 @@ class RefDC:
             return ("fault", peers.ERROR_ACCESS_DENIED)
         hr, env = self.answer(r["sd"], r["root_key_id"], r["l0"], r["l1"], r["l2"], entry)
         entry["hresult"] = hr
+        if self.lib and env is not None:
+            env = self._lib_pack_envelope(entry["envelope_fields"])
         entry["envelope"] = env
         return ("response", rpce.ndr64_getkey_response(env, hr))
+
+    # ---- LibDC: dpapi_ng's own codecs in the server role ----------------------------
+    @staticmethod
+    def _lib_parse_ept_map(stub: bytes) -> dict:
+        from dpapi_ng import _epm
+
+        m = _epm.EptMap.unpack(stub)
+        floors = [(int(f.protocol), bytes(f.lhs), bytes(f.rhs)) for f in m.tower]
+        tb = rpce.tower_bytes(floors)
+        consumed = 8 + 16 + 8 + 8 + 4 + len(tb)
+        consumed += -consumed % 8
+        return {"obj": m.obj, "floors": floors, "handle": b"\x00" * 20 if m.entry_handle is None else b"?", "max_towers": m.max_towers,
+                "consumed": consumed + 24, "referents": (1, 2), "lib_obj": m}
+
+    @staticmethod
+    def _lib_ept_map_response(towers, status: int) -> bytes:
+        from dpapi_ng import _epm
+
+        lib_towers = [[_epm.Floor.unpack(rpce.floor_bytes(*f)) for f in tw] for tw in towers]
+        return _epm.EptMapResult(entry_handle=None, towers=lib_towers, status=status).pack()
+
+    @staticmethod
+    def _lib_parse_getkey(stub: bytes) -> dict:
+        from dpapi_ng import _gkdi
+
+        g = _gkdi.GetKey.unpack(stub)
+        consumed = 16 + len(g.target_sd) + (-len(g.target_sd) % 8) + (24 if g.root_key_id else 8) + 12
+        return {"sd": g.target_sd, "root_key_id": g.root_key_id, "l0": g.l0_key_id, "l1": g.l1_key_id, "l2": g.l2_key_id, "consumed": consumed,
+                "referent": 1 if g.root_key_id else 0, "lib_obj": g}
+
+    @staticmethod
+    def _lib_parse_vt(b: bytes):
+        import dpapi_ng._rpc as rpc
+
+        vt = rpc.VerificationTrailer.unpack(b)
+        return [(int(c.command), int(c.flags), bytes(c.value)) for c in vt.commands]
+
+    @staticmethod
+    def _lib_pack_envelope(e: dict) -> bytes:
+        from dpapi_ng import _gkdi
+
+        return _gkdi.GroupKeyEnvelope(version=e["version"], flags=e["flags"], l0=e["l0"], l1=e["l1"], l2=e["l2"], root_key_identifier=e["root_key_id"],
+                                      kdf_algorithm=e["kdf_alg"], kdf_parameters=e["kdf_params"], secret_algorithm=e["secret_alg"],
+                                      secret_parameters=e["secret_params"], private_key_length=e["private_key_length"],
+                                      public_key_length=e["public_key_length"], domain_name=e["domain"], forest_name=e["forest"],
+                                      l1_key=e["l1_key"], l2_key=e["l2_key"]).pack()
 
     def answer(self, sd: bytes, rkid, l0: int, l1: int, l2: int, entry: dict) -> t.Tuple[int, t.Optional[bytes]]:
         now = self.now_position()
